@@ -106,7 +106,6 @@ func runSeqCase(cfg *config.Config, prog [][]string, out *os.File) bool {
 		return c, nil
 	}
 	fail := ""
-	subs := env.mgr.DBs[0].SubChans
 loop:
 	for i, f := range prog {
 		c, err := get(f[1])
@@ -127,12 +126,14 @@ loop:
 			}
 		case "U":
 			fmt.Fprintf(out, "OP U %d %s\n", c.id, hx(unhx(f[2])))
+			if apiUnsubscribe == nil {
+				fail = fmt.Sprintf("op %d: UnSubscribe is not available in the command-level harness", i)
+				break loop
+			}
 			ch := string(unhx(f[2]))
 			done := make(chan struct{})
 			go func() {
-				// Subscribe returns the id of the existing subscription (or makes one that is removed at once)
-				sid := subs.Subscribe(ch, c.srv)
-				subs.UnSubscribe(ch, sid)
+				apiUnsubscribe(env, ch, c)
 				close(done)
 			}()
 			select {
@@ -206,6 +207,17 @@ loop:
 		fmt.Fprintf(out, "RECV %d %s\n", n, hx(clients[n].received()))
 	}
 	if fail != "" {
+		// a command that got no reply: is it only that connection, or is pub/sub blocked for everybody?
+		if strings.Contains(fail, "no reply within") {
+			if pc, err := env.connect(1 << 20); err == nil {
+				if err := pc.command(time.Second, []byte("PUBLISH"), []byte("verif-probe"), []byte("x")); err != nil {
+					fail += "; afterwards PUBLISH verif-probe x on a fresh connection got no reply within 1s either: pub/sub of the database is blocked for everybody"
+				} else {
+					fail += "; a PUBLISH on a fresh connection is still answered"
+				}
+				defer pc.conn.Close()
+			}
+		}
 		fmt.Fprintf(out, "ERR %s\n", strings.ReplaceAll(fail, "\n", " "))
 	}
 	// tear down: clients close, handlers return, listener closes
